@@ -261,6 +261,13 @@ func init() {
 				b = spatial.Vector3{X: 0, Y: 0, Z: -float64(1 + rng.Intn(5))}
 			case 2: // parallel
 				b = a.Scale([]float64{1, 2, 0.5}[rng.Intn(3)])
+			case 4: // nearly parallel: an angle of 1e-7 … 1e-4 rad is a small rotation, not the identity
+				k := []float64{1, 2.5, 0.3}[rng.Intn(3)]
+				eps := []float64{1e-7, 1e-6, 5e-6, 1e-5, 1e-4}[rng.Intn(5)]
+				o := a.Cross(spatial.Vector3{X: 0.3, Y: -0.5, Z: 0.8})
+				if n := o.Norm(); n > 0 {
+					b = a.Scale(k).Add(o.Scale(k * eps * a.Norm() / n))
+				}
 			case 3: // axis-aligned
 				ax := []spatial.Vector3{{X: 1}, {Y: 1}, {Z: 1}, {X: -1}, {Y: -1}, {Z: -1}}
 				a, b = ax[rng.Intn(6)], ax[rng.Intn(6)]
